@@ -21,9 +21,10 @@
     essence and deletion mark are never written by the framework. With a fresh view this is C03's turn itself
     (`reactor_refines_loop`). The finalizer is edited by a JSON-patch that tests the view's version: on a stale view it
     is rejected (422) and, being the framework's own function, not carried (C08, 1c8f3dd): `finConflict`.
+    A turn that changed something on a STALE view whose write-back changes nothing on the server (the same content was
+    written before) makes NO version: the server answers with the version it holds (`noop` in `work`; found by the tie).
     NOT modelled: the closing patch of a release on a stale view (merge-patch first: its JSON-patch tests the fresh
-    answer; taken as accepted); a server-side no-op of a turn that changed something on a STALE view (counted as a
-    version); `constPatch` on a stale view (`application.apply` takes the answer's newer version for a change).
+    answer; taken as accepted); `constPatch` on a stale view (`application.apply` takes the answer's newer version for a change).
 
   GLUE 3 (which of C03's turns). C07's `process` decides from (deadline, clock, pressure, next arrival) whether the
     changing stage runs. ran / not required → `loopStep` on the view — at the deadline when the barrier slept it out,
@@ -105,6 +106,14 @@ def writeBack (srv : Obj E) (sv sv' : C03.State E) : Obj E :=
     blocked := if sv'.blocked = sv.blocked then srv.blocked else sv'.blocked,
     gone := srv.gone || (sv'.gone && !sv.gone) }
 
+/-- the object part of a C03 state -/
+def objOfS (s : C03.State E) : Obj E :=
+  { P := s.P, base := s.base, ess := s.ess, marked := s.marked, blocked := s.blocked, gone := s.gone }
+
+/-- do two stored objects differ in what the framework writes (records of `ids`, last-handled state, finalizer, existence)? -/
+def objDiffers (ids : List Id) (a b : Obj E) : Bool :=
+  ids.any (fun i => b.P i != a.P i) || decide (b.base ≠ a.base) || (b.blocked != a.blocked) || (b.gone != a.gone)
+
 /-- GLUE 2 (C08): the framework's finalizer edit is a JSON-patch `[test resourceVersion == view's, …]`; C08's
     `applyPayload` on the stored object says whether the test fails. -/
 def finConflict (viewVer srvVer : Nat) (blocked : Bool) : Bool :=
@@ -165,36 +174,61 @@ def turnOf (env : C03.Env) (c : C03.Carried) (dl : Option Int) (o : C07.Outcome)
 def iterOf (it : C07.Iter) (patched : Option C07.Ver) (tret : Int) : C07.Iter :=
   { it with patched := patched, tp := tret, tret := tret }
 
-/-- One worker iteration: dequeue, C07's reset-on-arrival and processor, C03's turn on the view, the write-back with
-    a new version and its echo, C07's feedback. `d`: delivery delay of the echo. -/
+/-- What one iteration works out before anything is committed. -/
+structure Turn (E : Type) where
+  it : C07.Iter            -- what C07's processor reads
+  o : C07.Outcome          -- what it decided
+  sv : C03.State E         -- the view
+  sv' : C03.State E        -- C03's turn on the view
+  tret : Int               -- when the processor returned (= when the server applied the write)
+  srv' : Obj E             -- the server's object after the write-back
+  released : Bool          -- this turn released the object
+  noop : Bool              -- the turn changed its (stale) view, the write-back changes nothing on the server: no version
+  echo : Bool              -- an event of the framework's own making follows
+  wrote : Bool             -- a new version was made
+
+/-- dequeue `ev` (the rest of the queue: `rest`): C07's reset-on-arrival and processor, C03's turn on the view, the write-back -/
+def turn (env : C03.Env) (r : RState E) (ev : Ev E) (rest : List (Ev E)) : Turn E :=
+  let t0 := if r.clock < ev.at_ then ev.at_ else r.clock
+  let sv := viewOf r ev.snap t0
+  let it := iter0 env r ev rest t0
+  let w1 := C07.arrive r.w it.ver
+  let o := C07.process w1.deadline it
+  let sv' := turnOf env r.carried w1.deadline o ev.ver r.rv (rest.head?.map (·.at_)) sv
+  let tret := if sv'.now < t0 then t0 else sv'.now
+  -- GLUE 1: an event of its own follows / the object was released: ONE new version — unless (GLUE 2) the turn changed
+  -- something ON ITS VIEW and writing that back changes NOTHING on the server (a stale view whose change was written
+  -- before): the API server makes no version for a no-op PATCH and answers with the version it holds
+  let released := sv'.gone && !sv.gone
+  let srv' := writeBack r.srv sv sv'
+  let noop := sv'.pending && objDiffers (C03.ids env) (objOfS sv) (objOfS sv') &&
+    !objDiffers (C03.ids env) r.srv srv' && !released
+  let echo := sv'.pending && !noop
+  { it := it, o := o, sv := sv, sv' := sv', tret := tret, srv' := srv', released := released, noop := noop, echo := echo,
+    wrote := echo || released }
+
+/-- the version `application.apply` hands back to the worker -/
+def patchedOf (rv : Nat) (k : Turn E) : Option C07.Ver :=
+  if k.wrote then some ⟨rv + 1, k.released⟩ else if k.noop then some ⟨rv, false⟩ else none
+
+/-- One worker iteration: `turn`, then the commit: the new version and its echo, the operator's memory, C07's feedback,
+    the ghosts. `d`: delivery delay of the echo. -/
 def work (T : Int) (env : C03.Env) (d : Nat) (r : RState E) : RState E :=
   match r.queue with
   | [] => r
   | ev :: rest =>
-    let t0 := if r.clock < ev.at_ then ev.at_ else r.clock
-    let sv := viewOf r ev.snap t0
-    let it := iter0 env r ev rest t0
-    let w1 := C07.arrive r.w it.ver
-    let o := C07.process w1.deadline it
-    let sv' := turnOf env r.carried w1.deadline o ev.ver r.rv (rest.head?.map (·.at_)) sv
-    let tret := if sv'.now < t0 then t0 else sv'.now
-    -- GLUE 1: an event of its own follows / the object was released: ONE new version
-    let released := sv'.gone && !sv.gone
-    let wrote := sv'.pending || released
-    let rv' := if wrote then r.rv + 1 else r.rv
-    let srv' := writeBack r.srv sv sv'
-    let patched : Option C07.Ver := if wrote then some ⟨r.rv + 1, released⟩ else none
-    let lastAt := match rest.getLast? with | some l => l.at_ | none => tret
-    let echoAt := if tret + (d : Int) < lastAt then lastAt else tret + d
-    { srv := srv', rv := rv',
-      queue := if sv'.pending then rest ++ [{ ver := r.rv + 1, snap := srv', at_ := echoAt, own := true }] else rest,
-      noticed := sv'.noticed, fullyHandled := sv'.fullyHandled, resumed := sv'.resumed,
-      w := (C07.stepEvent T r.w (iterOf it patched tret)).1,
+    let k := turn env r ev rest
+    let lastAt := match rest.getLast? with | some l => l.at_ | none => k.tret
+    let echoAt := if k.tret + (d : Int) < lastAt then lastAt else k.tret + d
+    { srv := k.srv', rv := if k.wrote then r.rv + 1 else r.rv,
+      queue := if k.echo then rest ++ [{ ver := r.rv + 1, snap := k.srv', at_ := echoAt, own := true }] else rest,
+      noticed := k.sv'.noticed, fullyHandled := k.sv'.fullyHandled, resumed := k.sv'.resumed,
+      w := (C07.stepEvent T r.w (iterOf k.it (patchedOf r.rv k) k.tret)).1,
       carried := .none,
-      clock := tret, writes := sv'.writes,
-      owns := if wrote then (r.rv + 1, tret) :: r.owns else r.owns,
+      clock := k.tret, writes := k.sv'.writes,
+      owns := if k.wrote then (r.rv + 1, k.tret) :: r.owns else r.owns,
       seen := if r.seen < ev.ver then ev.ver else r.seen,
-      ran := match o.handlers with
+      ran := match k.o.handlers with
         | some t => { ver := ev.ver, t := t, owns := r.owns } :: r.ran
         | none => r.ran }
 
@@ -229,7 +263,7 @@ def act (T idle : Int) (env : C03.Env) (r : RState E) : Act E → RState E
         let srv' := { r.srv with marked := true, gone := !(r.srv.blocked || env.foreignFins) }
         { r with srv := srv', rv := r.rv + 1, queue := enqueue r.queue (r.rv + 1) srv' a }
   | .carry c => { r with carried := c }
-  | .retire t => if mayRetire idle r t then { r with w := C07.WState.init, clock := t } else r
+  | .retire t => if mayRetire idle r t then { r with w := C07.WState.init, clock := if t < r.clock then r.clock else t } else r
 
 def runActs (T idle : Int) (env : C03.Env) (r : RState E) (acts : List (Act E)) : RState E :=
   acts.foldl (act T idle env) r
